@@ -175,6 +175,61 @@ func init() {
 		}
 		w.Line("/-- `processPublish`: the PUBACK copies the PUBLISH's packet id. -/")
 		w.Line("def pubackCopiesId : Bool := %s", Bool(strings.Contains(r.Src(pp.Body), "puback.MessageID = publish.MessageID")))
+		// --- inbound PUBLISH handling keeps no memory between packets (extension mqtt round 3): the fields of
+		// *Client that processPublish, pipelineWrapper's closure, checkPublishLimit and the "*packets.PublishPacket"
+		// entry of processPacketMap ASSIGN (the model `onPublish` is a function of the packet and of the limiter /
+		// pipeline verdicts only; the publish limiter has its own state behind c.publishLimit)
+		cf, err := r.File(dir + "client.go")
+		if err != nil {
+			return err
+		}
+		writes := []string{}
+		seen := map[string]bool{}
+		collect := func(n ast.Node) {
+			ast.Inspect(n, func(x ast.Node) bool {
+				var lhs []ast.Expr
+				switch st := x.(type) {
+				case *ast.AssignStmt:
+					lhs = st.Lhs
+				case *ast.IncDecStmt:
+					lhs = []ast.Expr{st.X}
+				}
+				for _, l := range lhs {
+					if se, ok := l.(*ast.SelectorExpr); ok {
+						if id, ok := se.X.(*ast.Ident); ok && id.Name == "c" && !seen[se.Sel.Name] {
+							seen[se.Sel.Name] = true
+							writes = append(writes, se.Sel.Name)
+						}
+					}
+				}
+				return true
+			})
+		}
+		for _, d := range cf.Decls {
+			switch x := d.(type) {
+			case *ast.FuncDecl:
+				if x.Name.Name == "processPublish" || x.Name.Name == "pipelineWrapper" || x.Name.Name == "checkPublishLimit" {
+					collect(x)
+				}
+			case *ast.GenDecl:
+				for _, sp := range x.Specs {
+					if vs, ok := sp.(*ast.ValueSpec); ok && len(vs.Names) == 1 && vs.Names[0].Name == "processPacketMap" {
+						for _, v := range vs.Values {
+							ast.Inspect(v, func(n ast.Node) bool {
+								if kv, ok := n.(*ast.KeyValueExpr); ok && r.Src(kv.Key) == "\"*packets.PublishPacket\"" {
+									collect(kv.Value)
+								}
+								return true
+							})
+						}
+					}
+				}
+			}
+		}
+		w.Line("/-- fields of *Client assigned while an inbound PUBLISH is processed (processPublish, pipelineWrapper,")
+		w.Line("checkPublishLimit, the PublishPacket entry of processPacketMap): none — no memory between packets. -/")
+		w.Line("def inboundPublishWritesClientFields : List String := %s", StrList(writes))
+
 		return nil
 	}})
 }
